@@ -1167,7 +1167,9 @@ def validate_config(scen, cfg, lib, seed, n=3, tries=40):
             msgs.append(f'trace mismatch: {why or [x for x in zip(c1, c2) if x[0] != x[1]][:3]} values={_jsonable(vals)}')
             continue
         ok += 1
-    if exc_agree:
+    if exc_agree and ok == 0:
+        # every sample ended in the same uncaught exception on both sides: nothing was validated, and either the scenario draws
+        # inputs outside the documented precondition or the library fails on valid ones
         bad += 1
-        msgs.append(f'uncaught exception on {len(exc_agree)} random valid input(s), on the model and on the real library alike: {exc_agree[0]}')
+        msgs.append(f'no validation sample completed: uncaught exception on {len(exc_agree)} random input(s), on the model and on the real library alike: {exc_agree[0]}')
     return ok, bad, msgs
